@@ -20,6 +20,7 @@ type Request struct {
 // NewRequest returns a new request.
 func NewRequest() *Request {
 	s := acquireRequestState()
+	vpoolGetRequest(s)
 	return &Request{s: s}
 }
 
@@ -125,6 +126,7 @@ func acquireRequestState() *requestState {
 
 func releaseRequestState(s *requestState) {
 	s.reset()
+	vpoolPutRequest(s)
 	requestStatePool.Put(s)
 }
 
